@@ -136,7 +136,7 @@ PROPS_EXTRA = {
     'C12': ['Props.CodecFacts', 'Props.GenFetcher'],
     'C14': ['Props.GenHeads', 'Props.GenJoin', 'Props.GenJoinTail', 'Props.GenCapstoneJoin'],
     'C15': ['Props.C13Facts', 'Props.GenTraverse', 'Props.GenIterator', 'Props.GenCapstoneIter', 'Props.GenCapstoneSystem'],
-    'C16': ['Props.GenJoin', 'Props.GenJoinTail', 'Props.GenCapstoneBounded'],
+    'C16': ['Props.GenJoin', 'Props.GenJoinTail', 'Props.GenCapstoneBounded', 'Props.GenCapstoneSystem'],
     'C17': ['Props.EffectFacts', 'Props.GenFetcher'],
     'C18': ['Props.CodecFacts', 'Props.GenMisc'],
     'C19': ['Props.C19Gen'],
